@@ -114,6 +114,14 @@ theorem waiter_queue_served {s : St} (h : Reach s) (a : App) (ha : a ∈ s.apps)
     (cmdsOf s a.q ≠ [] → served s a.q ∨ ∃ b ∈ s.apps, willSignal b) :=
   ⟨(inv_reach h).note a ha (Or.inr hw), (inv_reach h).work a.q⟩
 
+/-- **No lost wake-up at protocol level.** In every reachable state, for EVERY queue (waiters or
+    not): if a command is queued, the driver side is awake for that queue (`served`) or some
+    application thread still owes the `enqueueSignal` that will wake it. (`C12.W` continues below
+    the tick event: the tick itself never reports "no progress" while work is left.) -/
+theorem no_lost_wakeup {s : St} (h : Reach s) (q : Nat) (hq : cmdsOf s q ≠ []) :
+    served s q ∨ ∃ b ∈ s.apps, willSignal b :=
+  (inv_reach h).work q hq
+
 /-- **No blocked waiter without a mover, k threads.** If any application thread is blocked inside
     `DrainCommandQueue` (in `Wait` or in the send on `enqueueSignal`), some thread can move. -/
 theorem blocked_waiter_has_mover {s : St} (h : Reach s) (a : App) (ha : a ∈ s.apps)
